@@ -53,6 +53,16 @@ func putMap(b *bytes.Buffer, md MapDoc, wide, sentinel bool) {
 		b.WriteString("\troot=/bin\n")
 	}
 	for i, e := range entries(md.Ents, wide) {
+		if i > 0 {
+			switch md.Gap {
+			case 1:
+				b.WriteString("\n")
+			case 2:
+				b.WriteString("# libraries\n")
+			case 3:
+				b.WriteString("  (some text a tool printed)\n")
+			}
+		}
 		switch md.Form {
 		case 0:
 			perm := "rw-p"
